@@ -4,6 +4,7 @@ mod c04;
 mod corpus;
 mod c05;
 mod c07;
+mod c08;
 mod c09;
 mod c11;
 mod c14;
@@ -44,6 +45,7 @@ fn main() {
         "C02" => c01::main("C02", &args),
         "C03" => c01::main("C03", &args),
         "C07" => c01::main("C07", &args),
+        "C08" => c08::main(&args),
         "C09" => c09::main(&args),
         "C04" => c04::main(&args),
         "C05" => c05::main(&args),
